@@ -407,6 +407,58 @@ def named_cases():
     return res
 
 
+def decoder_grid():
+    """Content-Type values for which the decoder chosen by contenttype.NewDecoder is compared with the model's
+    decoderFor: the spellings the generators use, and a grid prefix x core x suffix"""
+    cts = []
+    for group in list(gen_authn.CT_OWN.values()) + [gen_authn.CT_NONE]:
+        for ct in group:
+            cts.append(",".join(gen_authn.ct_lines(ct)))
+    pre = ["", "application/", "text/", "application/vnd.api+", "application/x-", "text/plain, application/", "x"]
+    core = ["json", "JSON", "Json", "jso", "j son", "x-www-form-urlencoded", "yaml", "YAML", "yml", "xml", "ndjson",
+            "x-www-form-urlencoded+json", "yaml+json", "json+yaml", "jsonyaml", ""]
+    suf = ["", "; charset=utf-8", ";q=0.5, text/plain", ", application/json", ", application/yaml", "x"]
+    for a in pre:
+        for b in core:
+            for c in suf:
+                cts.append(a + b + c)
+    seen, out = set(), []
+    for ct in cts:
+        if ct not in seen:
+            seen.add(ct)
+            out.append(ct)
+    return out
+
+
+def decoder_step(exe):
+    """-> (number of Content-Type values compared, [(content type, decoder of the implementation, of the model)] where
+    they differ, chain cases that carry a credential in a body announced with such a Content-Type)"""
+    cts = decoder_grid()
+    case = {"fam": "authn", "op": "decoder", "cts": cts}
+    impl = vlib.run_cases([exe], [case])[0]
+    model = vlib.res_of(vlib.run_cases(vlib.driver_cmd(), [case])[0])
+    if not isinstance(impl, list) or not isinstance(model, list) or len(impl) != len(cts) or len(model) != len(cts):
+        return len(cts), [("<the decoder probe gave no answer>", str(impl)[:300], str(model)[:300])], []
+    diff = [(ct, i, m) for ct, i, m in zip(cts, impl, model) if i != m]
+    extra = []
+    mk = gen_authn._std_mech
+    anon = mk("anonymous", 9, None)
+    for ct, i, m in diff[:12]:
+        fmt = m or i
+        if fmt not in ("json", "form", "yaml"):
+            continue
+        reqs = []
+        for typ, (good, bad_) in gen_authn.BODY_CREDS.items():
+            reqs += [gen_authn.body_request(fmt, "access_token", v, ct) for v in (bad_, good)]
+        mechs = [mk("jwt", 0, None), dict(mk("oauth2_introspection", 3, None), src=None),
+                 dict(mk("generic", 4, None), src=[{"k": "body", "name": "access_token"}]), anon]
+        for first in ("a0", "a3", "a4"):
+            extra.append(gen_authn.assemble(mechs, [{"ref": first}, {"ref": "a9"}], reqs,
+                                            f"a credential in a {fmt} body announced as {ct!r}: the implementation "
+                                            f"chooses the decoder {i!r}, the model {m!r}"))
+    return len(cts), diff, extra
+
+
 def config_reject_cases():
     """`anonymous` does not know allow_fallback_on_error: a definition or a rule step that carries it is rejected when
     the configuration / the rule is loaded (so no configuration can make it fall back)"""
@@ -451,6 +503,13 @@ def run_checks(R):
     small = gen_authn.small_scope_cases(lengths=(1, 2)) + gen_authn.small_scope_cases(lengths=(2,), with_override=True)
     small += gen_authn.url_template_cases()      # endpoint URLs / headers templated over the credential (see gen_authn)
     R.assumptions.append(gen_authn.URL_TEMPLATE_ASSUMPTION)
+    # credentials in a body parameter x formats x spellings of the media type; the endpoint's own authentication
+    small += gen_authn.media_type_cases() + gen_authn.endpoint_auth_cases()
+    R.assumptions.append(gen_authn.ENDPOINT_AUTH_ASSUMPTION)
+    # which decoder reads the body: contenttype.NewDecoder against the model's decoderFor on a grid of Content-Types;
+    # where they differ, a credential is put into a body announced that way and run through the real authenticators
+    n_cts, decoder_diff, decoder_cases = decoder_step(exe)
+    small += decoder_cases
     if not quick:
         small += gen_authn.small_scope_cases(lengths=(3,)) + gen_authn.small_scope_cases(lengths=(3,), with_override=True)
     n_random = 1500 if quick else 30000
@@ -533,6 +592,7 @@ def run_checks(R):
                         "combinations that would need two different values of one header line (basic_auth and jwt both "
                         "read Authorization: only one of them carries a credential per request)"),
         "config_reject_cases": len(rejected),
+        "content_types_compared_with_decoderFor": n_cts,
         "exhaustive": False,
     })
     R.assumptions += [
@@ -547,7 +607,12 @@ def run_checks(R):
         "requests are handed to the real request context in process (no HTTP/1.1 parser in front): header values "
         "may carry leading / trailing blanks a real server would have removed; header names are generated in any "
         "spelling and compared in canonical form (modelled CanonicalMIMEHeaderKey), `Host` is the host of the request; "
-        "body decoding (JSON / form / YAML) is represented by the generator's own rendering of the body it parsed",
+        "WHICH decoder reads the body is modelled (decoderFor on the Content-Type lines joined by `,`: contains `json`, "
+        "else `application/x-www-form-urlencoded`, else `yaml`) and compared with contenttype.NewDecoder on a grid of "
+        "values and end to end; WHAT each decoder reads (go-json, url.ParseQuery, yaml.v3) is represented by the "
+        "generator's own rendering of the body, incl. the cross readings that are fixed by construction (a JSON object "
+        "is a YAML flow mapping; a form body / block YAML is no JSON; no pair named like a source otherwise); a JSON "
+        "body with a raw control character is never announced as YAML",
         "SHA-256 comparison of Basic credentials is modelled as string equality; half of the random cases run with "
         "a real in-memory cache in the request context (requests repeated, so cached keys / introspection responses / "
         "identities are hit), the others with the no-op cache; what is cached for how long is the subject of C10/C11",
@@ -602,6 +667,12 @@ def run_checks(R):
         R.violation(what, {"case": sc, "request": vs[0][0], "impl": si[0], "model": vlib.res_of(sm[0]),
                            "spec": sm[0].get("spec") if isinstance(sm[0], dict) else None, "kind": kind},
                     no_input=(kind in ("impl-vs-model", "driver")))
+    for ct, di, dm in decoder_diff[:3]:
+        R.violation(f"the implementation no longer behaves like the proved model: for the Content-Type {ct!r} "
+                    f"contenttype.NewDecoder chooses the decoder {di!r}, the model (decoderFor) {dm!r}",
+                    {"case": {"fam": "authn", "op": "decoder", "cts": [ct]}, "impl": [di], "model": [dm],
+                     "kind": "impl-vs-model", "differing_content_types": [d[0] for d in decoder_diff][:40]},
+                    no_input=True)
     if tie_error:
         R.violation("the facts about the authenticators' error values can no longer be extracted from the source: "
                     + tie_error, {"extract_error": tie_error}, no_input=True)
@@ -622,6 +693,15 @@ def replay(R, path):
     exe = vlib.step_harness(R)
     if exe is None:
         R.violation("harness does not build", {"build_log": R.harness_log[-3000:]}, no_input=True)
+        return
+    if c.get("op") == "decoder":
+        impl = vlib.run_cases([exe], [c])[0]
+        model = vlib.res_of(vlib.run_cases(vlib.driver_cmd(), [c])[0])
+        print("content types:", json.dumps(c["cts"]), "\n impl :", json.dumps(impl), "\n model:", json.dumps(model))
+        R.coverage.update({"obligations": 1, "discharged": 1, "checker_cmd": "replay", "trusted_base": []})
+        if impl != model:
+            R.violation("replay still fails: contenttype.NewDecoder and the model's decoderFor differ",
+                        {"case": c, "impl": impl, "model": model}, no_input=True)
         return
     impl, model = run_pair(exe, [c])
     for k, rq in enumerate(c["reqs"]):
